@@ -4,7 +4,7 @@
 # demo passes without the change; with the change the tree builds, the pinned suite passes
 # and the demo fails. On success the change is kept as /verif/seeded/<seeded-id>/.
 set -u
-src=$1/_seeded/$2; id=$3
+src=$1/_seeded/$2; id=$3; [ -d "$1/_seeded" ] || src=$1
 export GOFLAGS=-mod=mod GOPROXY=off GOSUMDB=off
 [ -f "$src/patch.diff" ] || { echo "no patch in $src"; exit 2; }
 wt=/tmp/sv-$id
